@@ -15,7 +15,7 @@ CHECKS = {
          "Both directions of 'fails iff write-write conflict' and all-or-nothing visibility are compared with the model on every commit/rollback of seeded histories.", "trusted: reference model", "3/C03"),
  "C05": ("exploration", "differential runtime monitoring across Close/Open in four process configurations (same process, decoy database first, two interleaved databases, process per segment), histories with more records than one iterator batch, long / non-ASCII / non-UTF-8 keys",
          "State after every reopen and after overwrites following a reopen equals the model in all four process configurations.", "trusted: reference model", "3/C05"),
- "C09": ("exploration", "differential runtime monitoring: the same history re-run with the collector inserted at every position (probing order varied per variant); all probes must equal the collector-free model",
+ "C09": ("exploration", "differential runtime monitoring: the same history re-run with the collector inserted at every position (probing order varied per variant); all probes must equal the collector-free model; role scheduled: the database's own scheduled collector job (1-250 ms) runs during writes whose content arrives slowly (3 ms - 1.3 s pauses), autocommit and transactional, inline and gRPC",
          "For every base history the collector (and cleaner drain) is inserted at every position; no read of any actor changes, open readers read to the end.", "trusted: reference model; quiescence barrier", "3/C09"),
  "C11": ("exploration", "differential runtime monitoring through the real gRPC server and client vs the same reference model, exhaustive error-mapping round trips over a generated wrapping family, and inline-vs-gRPC comparison of server-side rejections (empty key, injected no-space) for contents from 0 bytes to 4 MiB",
          "The gRPC client is compared with the model the inline client is compared with (same histories), and every wire sentinel survives Error->ClientError under all generated wrappings.", "trusted: reference model; loopback TCP", "3/C11"),
